@@ -67,6 +67,7 @@ InitObs == [
   quitSent  |-> FALSE,
   armed     |-> FALSE,      \* a deadline is armed on the transport
   stalled   |-> FALSE,      \* the server went silent during the running call
+  rwaits    |-> 0,          \* reads of the running call that began with (at least half of) the timeout ahead and ran into it
   authOpen  |-> FALSE,      \* between AUTH and the end of the exchange
   authMech  |-> "",         \* mechanism named by the latest AUTH command
   authDone  |-> FALSE,
@@ -200,8 +201,11 @@ ObserveRet(o, e) ==
                           \* (o.conn = "none": implicit TLS over the library's own dialer - the transport cannot be tapped)
                           (e.op = "DialAndSend" /\ ~e.err) => (o.quitSent /\ (o.conn # "none" => o.conn = "closed")))
                 \cup Flag("C17_Bounded", Bounded(e.op) => e.elapsed = "within")
-                \cup Flag("C17_ErrorOnStall", o.stalled => e.err),
-     !.stalled = FALSE]
+                \cup Flag("C17_ErrorOnStall", o.stalled => e.err)
+                \* "within the configured timeout": a call waits for the silent server once - it does not renew the
+                \* deadline after it expired and wait again (measured by what the transport saw, not by the clock)
+                \cup Flag("C17_OneTimeoutPerCall", Bounded(e.op) => o.rwaits <= 1),
+     !.stalled = FALSE, !.rwaits = 0]
 
 Committed(o, m) == \E i \in DOMAIN o.committed : o.committed[i].m = m
 FailsOf(o, m)   == {f \in o.fails : f.m = m /\ f.step # "other"}
@@ -297,7 +301,8 @@ RetProj(x) ==
 -----------------------------------------------------------------------------
 Observe(o, e) ==
   CASE e.ev = "begin"  -> [InitObs EXCEPT !.cfg = e.cfg]
-    [] e.ev = "call"   -> [o EXCEPT !.last = 0, !.callOpened = {}]
+    [] e.ev = "call"   -> [o EXCEPT !.last = 0, !.callOpened = {}, !.rwaits = 0]
+    [] e.ev = "rwait"  -> [o EXCEPT !.rwaits = @ + 1]
     [] e.ev = "open"   -> [o EXCEPT !.conn = "open", !.ncon = @ + 1, !.openSet = @ \cup {o.ncon + 1}, !.callOpened = @ \cup {o.ncon + 1}]
     [] e.ev = "greet"  -> [o EXCEPT !.ss = IF Positive(e.cls) THEN "idle" ELSE @,
                                     !.viol = @ \cup Flag("C04_NothingBeforeGreeting", ~e.early)]
